@@ -1,0 +1,32 @@
+//go:build verif
+
+package binary
+
+// Contracts for the verification machinery in /verif (vcgo). Comment-only.
+// r is a ghost byte stream: r.pos bytes consumed, r.len bytes in total, r.avail = len - pos;
+// u8/be16/be32/be64/le24/le32(r, p) denote the bytes at absolute stream offset p.
+
+//@ func ReadU16Big
+//@   modular
+//@   ensures [C05,C06,C16,C17,C08,C09,C18] ok: old(r.avail) >= 2 ==> result1 == nil && result0 == be16(r, old(r.pos)) && r.pos == old(r.pos) + 2
+//@   ensures [C05,C06,C16,C17,C08,C09,C18] short: old(r.avail) < 2 ==> result1 != nil && r.pos == r.len
+
+//@ func ReadU32Big
+//@   modular
+//@   ensures [C05,C06,C16,C17,C08,C09,C18] ok: old(r.avail) >= 4 ==> result1 == nil && result0 == be32(r, old(r.pos)) && r.pos == old(r.pos) + 4
+//@   ensures [C05,C06,C16,C17,C08,C09,C18] short: old(r.avail) < 4 ==> result1 != nil && r.pos == r.len
+
+//@ func ReadU32Little
+//@   modular
+//@   ensures [C05,C06,C08,C09,C18] ok: old(r.avail) >= 4 ==> result1 == nil && result0 == le32(r, old(r.pos)) && r.pos == old(r.pos) + 4
+//@   ensures [C05,C06,C08,C09,C18] short: old(r.avail) < 4 ==> result1 != nil && r.pos == r.len
+
+//@ func ReadU24Little
+//@   modular
+//@   ensures [C05,C08,C09,C18] ok: old(r.avail) >= 3 ==> result1 == nil && result0 == le24(r, old(r.pos)) && r.pos == old(r.pos) + 3
+//@   ensures [C05,C08,C09,C18] short: old(r.avail) < 3 ==> result1 != nil && r.pos == r.len
+
+//@ func ReadU64Big
+//@   modular
+//@   ensures [C16,C08,C09] ok: old(r.avail) >= 8 ==> result1 == nil && result0 == be64(r, old(r.pos)) && r.pos == old(r.pos) + 8
+//@   ensures [C16,C08,C09] short: old(r.avail) < 8 ==> result1 != nil && r.pos == r.len
